@@ -233,6 +233,12 @@ BaseWorkerScenarios ==
     \cup {[worker |-> "P", state |-> st, cap |-> c] : st \in {"idle", "busy", "loginpending"}, c \in {0, 4}}
     \* an event still being assembled when the context is cancelled: flushed before Read returns, not after
     \cup {[worker |-> "P", state |-> "inflight", cap |-> c] : c \in {0, 4}}
+    \* ... and with an output that fails: the errors of the flush have no receiver any more, Read returns all the same
+    \cup {[worker |-> "P", state |-> "inflightfail", cap |-> c] : c \in {0, 4}}
+    \* a session without login holds events when the context is cancelled: it stays silent on the way out
+    \cup {[worker |-> "P", state |-> "unboundcancel", cap |-> c] : c \in {0, 4}}
+    \* the sshd worker is inside the event write when it is cancelled: nothing of that record after the return
+    \cup {[worker |-> "S", state |-> "inflightwrite", cap |-> 0]}
     \* the pipe's path is removed (cap 0) / replaced by a new FIFO (cap 1) while the worker waits for a writer
     \cup {[worker |-> w, state |-> "openingunlinked", cap |-> c] : w \in {"A", "S"}, c \in {0, 1}}
 
